@@ -46,3 +46,12 @@ Theorem C19_parse_timestamp_exact s t : parse_timestamp s = Some t ->
   exists s', normalize_ts s = Some s' /\ timestamp_string t = s' /\ 0 <= t < 2^32.
 Proof. exact (parse_timestamp_exact s t). Qed.
 Print Assumptions C19_parse_timestamp_exact.
+
+(** the printed form uses the largest of the six units that divides the duration (7 years print as "7y",
+    not as the equally exact "365w") *)
+Theorem C19_duration_printed_in_largest_dividing_unit d : d <> 0 ->
+  exists u U, unit_multiplier u = Some U /\ Z.rem d U = 0 /\
+              duration_string d = print_int (Z.quot d U) ++ [u] /\
+              (forall u' U', unit_multiplier u' = Some U' -> U < U' -> Z.rem d U' <> 0).
+Proof. exact (duration_string_largest_unit d). Qed.
+Print Assumptions C19_duration_printed_in_largest_dividing_unit.
